@@ -344,12 +344,69 @@ UNITS += [
          ),
 ]
 
+UNITS += [
+    # the fill phase in front of the merge loop: the head of every non-empty input goes into the heap under ITS input's number
+    Unit(name="merge_fill_heap", file=TR, kind="block", within="pub(crate) fn merge_trees(",
+         anchor="let mut elems = BinaryHeap::new();", block_end="let mut tree = Tree::new();",
+         block_sig="fn merge_fill_heap(tree_iters: &mut Vec<VNodeIter>) -> (r: VHeap)",
+         block_tail="    elems",
+         functions=["blob::tree::merge_trees (fill phase: first node of every input into the heap)"],
+         rewrites=[
+             Rw("BinaryHeap::new()", "vheap_new()", why="BinaryHeap -> bag stub"),
+             Rw(r"for (?:\(num, iter\) in tree_iters\.iter_mut\(\)\.enumerate\(\)|iter in &mut tree_iters|iter in tree_iters\.iter_mut\(\)) \{", "for num in itf: 0..tree_iters.len() {", regex=True, why="iter_mut() (with or without enumerate) over the inputs -> index loop over the same range"),
+             Rw("iter.next()", "vnext_of(tree_iters, num)", why="Iterator::next on the num-th input -> stub: head of its remaining nodes"),
+         ],
+         contract="""
+    requires forall|j: int| 0 <= j < old(tree_iters)@.len() ==> strictly_sorted((#[trigger] old(tree_iters)@[j]).rem@),
+    ensures
+        final(tree_iters)@.len() == old(tree_iters)@.len(),
+        forall|j: int| 0 <= j < final(tree_iters)@.len() ==> strictly_sorted((#[trigger] final(tree_iters)@[j]).rem@),
+        // exactly the state the merge loop starts from (after its first pop: lemma_after_pop): every heap item is the head of
+        // the input whose number it carries and smaller than everything left of that input; every non-empty input has its head there
+        /*@heap_holds_the_head_of_each_input_under_its_number*/ heap_ok(r.items@, final(tree_iters)@, -1) && heads_present(r.items@, final(tree_iters)@, -1),
+        // nothing is lost: every name of every input is in the heap or still in its input
+        /*@fill_loses_no_name*/ forall|f: FileName| in_iters(old(tree_iters)@, f) ==> in_heap(r.items@, f) || in_iters(final(tree_iters)@, f),
+""",
+         loops={1: """
+        invariant
+            tree_iters@.len() == old(tree_iters)@.len(),
+            forall|j: int| 0 <= j < tree_iters@.len() ==> strictly_sorted((#[trigger] tree_iters@[j]).rem@),
+            forall|j: int| num <= j < tree_iters@.len() ==> (#[trigger] tree_iters@[j]) == old(tree_iters)@[j],
+            forall|i: int| 0 <= i < elems.items@.len() ==> 0 <= (#[trigger] elems.items@[i]).1 < num
+                && forall|a: int| 0 <= a < tree_iters@[elems.items@[i].1 as int].rem@.len() ==> fname_lt(fn_of(elems.items@[i].0), fn_of(#[trigger] tree_iters@[elems.items@[i].1 as int].rem@[a])),
+            forall|i: int, k: int| 0 <= i < k < elems.items@.len() ==> (#[trigger] elems.items@[i]).1 != (#[trigger] elems.items@[k]).1,
+            forall|j: int| 0 <= j < num && (#[trigger] tree_iters@[j]).rem@.len() > 0 ==> exists|i: int| 0 <= i < elems.items@.len() && (#[trigger] elems.items@[i]).1 == j,
+            forall|j: int, f: FileName| #![trigger in_seq(old(tree_iters)@[j].rem@, f)] 0 <= j < tree_iters@.len() && in_seq(old(tree_iters)@[j].rem@, f) ==> in_heap(elems.items@, f) || in_seq(tree_iters@[j].rem@, f),
+"""},
+         hints=[("loop_start", "1", "        let ghost it0 = tree_iters@; let ghost h0 = elems.items@; proof { axiom_fname_total_order(); }"),
+                ("after", "elems.push(SortedNode(node,", """            proof {
+                assert(it0[num as int].rem@[0] == node);
+                assert forall|a: int| 0 <= a < tree_iters@[num as int].rem@.len() implies fname_lt(fn_of(node), fn_of(#[trigger] tree_iters@[num as int].rem@[a])) by {
+                    assert(tree_iters@[num as int].rem@[a] == it0[num as int].rem@[a + 1]);
+                }
+                assert(elems.items@[h0.len() as int] == (node, num));
+                assert forall|i: int| 0 <= i < h0.len() implies elems.items@[i] == h0[i] by {}
+                assert forall|j: int, f: FileName| #![trigger in_seq(old(tree_iters)@[j].rem@, f)] 0 <= j < tree_iters@.len() && in_seq(old(tree_iters)@[j].rem@, f)
+                    implies in_heap(elems.items@, f) || in_seq(tree_iters@[j].rem@, f) by {
+                    if in_heap(h0, f) { let i = choose|i: int| 0 <= i < h0.len() && fn_of((#[trigger] h0[i]).0) == f; assert(elems.items@[i] == h0[i]); }
+                    else if j == num {
+                        assert(it0[j] == old(tree_iters)@[j]);
+                        let a = choose|a: int| 0 <= a < it0[j].rem@.len() && fn_of(#[trigger] it0[j].rem@[a]) == f;
+                        if a == 0 { assert(fn_of(elems.items@[h0.len() as int].0) == f); }
+                        else { assert(tree_iters@[j].rem@[a - 1] == it0[j].rem@[a]); }
+                    } else { assert(tree_iters@[j] == it0[j]); }
+                }
+            }"""),
+                ("after_loop", "1", "    proof { assert(heap_ok(elems.items@, tree_iters@, -1)); assert(heads_present(elems.items@, tree_iters@, -1)); assert forall|f: FileName| in_iters(old(tree_iters)@, f) implies in_heap(elems.items@, f) || in_iters(tree_iters@, f) by { let j = choose|j: int| 0 <= j < old(tree_iters)@.len() && in_seq((#[trigger] old(tree_iters)@[j]).rem@, f); if !in_heap(elems.items@, f) { assert(in_seq(tree_iters@[j].rem@, f)); } } }")],
+         ),
+]
+
 KANI = []
 # the ordering kernels of copy / merge / rewrite / repair live in C03's spec
 SATELLITES = [("C03", ["ModifierChange", "repair_snapshots", "copy_tail", "copy_blobs_reports_failed_writes", "rewrite_save_then_forget", "merge_trees_tail", "merge_snapshots_tail", "repair_index_order"])]
 
 META = {"not_covered": [
-    "merge: Tree::from_backend of the inputs and the fill phase of the heap (iterator adapters), which conflicting entry wins beyond 'one of the group' (the caller's cmp closure), the recursion into sub-directories (stub), BinaryHeap semantics (assumed); the heap order, the merge loop and merge_nodes ARE units",
+    "merge: Tree::from_backend of the inputs (iterator adapters; the fill loop of the heap IS unit merge_fill_heap), which conflicting entry wins beyond 'one of the group' (the caller's cmp closure), the recursion into sub-directories (stub), BinaryHeap semantics (assumed); the heap order, the merge loop and merge_nodes ARE units",
     "what the visitors answer for trees as a whole (pre_process_tree: unreadable trees replaced by empty ones) -- in modify_tree the visitor is a stub with arbitrary answers",
     "copy: TreeStreamerOnce (threads), the two filter closures (stubs: 'not in the destination index') and the lookup of the collected ids in the source index; the per-tree node loop IS a unit, the byte-exact copy is C02's BlobCopier units, the ordering C03's copy_tail",
     "'restores identically' / 'union of paths' as whole-command statements",
